@@ -88,9 +88,9 @@ def _nontrivial(m, op):
         tags.append("pre_end_tie")
     if any(v[1] == 0 for v in vals):
         tags.append("pre_zero_length")
-    if op[0] in ("ups", "mix", "rep", "del") and op[1] != len(vals) - 1:
+    if op[0] in ("ups", "mix", "rep", "del", "rep_otherid", "ups_twice") and op[1] != len(vals) - 1:
         tags.append("addresses_older_id")
-    if op[0] == "repl" and vals:
+    if op[0] in ("repl", "repl_otherid") and vals:
         mx = max(starts)
         if starts.count(mx) > 1:
             tags.append("repl_newest_start_tie")
@@ -123,7 +123,7 @@ def expand_with(backend, wdir, hist, E, K, prefix=()):
             u.hist[t] += 1
         if {"pre_start_tie", "pre_end_tie", "addresses_older_id", "repl_newest_start_tie", "repl_max_end_tie"} & set(tags):
             u.nontrivial += 1
-        if op[0] == "repl" and x["target"] is not None and x["target"] != max(pre.live):
+        if op[0] in ("repl", "repl_otherid") and x["target"] is not None and x["target"] != max(pre.live):
             u.hist["repl_target_not_last_inserted"] += 1
         if not probs and S.dump_bucket(ds, "passive") != passive0:
             probs = [("other-bucket-changed", f"passive bucket now {S.dump_bucket(ds, 'passive')}")]
